@@ -6,6 +6,7 @@ import (
 	"reflect"
 	"runtime/debug"
 	"syscall"
+	"time"
 
 	"free5gclib/nas/nasConvert"
 	"free5gclib/nas/nasMessage"
@@ -52,6 +53,9 @@ func decSUCI(v []byte) (mcc, mnc, msin string, scheme byte, err error) { return 
 
 func runC11(c *fw.Case) (o fw.Outcome) {
 	r := c.R
+	if c.Idx%10 == 9 {
+		return c11Procedures(c)
+	}
 	mccN := c.Idx
 	if !c.Thorough() {
 		mccN = (c.Idx*17 + int(c.Seed%17)) % 1000
@@ -134,6 +138,52 @@ func runC11(c *fw.Case) (o fw.Outcome) {
 		}
 	}
 	o.Count("plmns", int64(n))
+	return
+}
+
+// c11Procedures: the emulator's own NG Setup, registration and deregistration procedures (procedure driver child, the
+// reference AMF on the other end) for subscribers whose digits fall into the classes that string / number arithmetic
+// on identities gets wrong: the AMF requires the SUCI of the Registration Request to identify the configured
+// subscriber, the announced PLMN to be its PLMN and the Deregistration Request to carry the same identity.
+func c11Procedures(c *fw.Case) (o fw.Outcome) {
+	r := c.R
+	cfg := genEmuConfig(r)
+	k := c.Idx / 10
+	mncs := []string{"00", "000", "01", "001", "010", "100", "09", "99", "999", "900", "08", "012"}
+	cfg.MNC = mncs[k%len(mncs)]
+	cfg.MCC = pick(r, "000", "001", "460", "999", "909", digits(r, 3))
+	total := 15
+	if r.Intn(5) == 0 {
+		total = 14
+	}
+	msinLen := total - 3 - len(cfg.MNC)
+	lead := pick(r, "0", "00", "9", "1", "")
+	cfg.IMSI = cfg.MCC + cfg.MNC + lead + digits(r, msinLen-len(lead)-4) + fmt.Sprintf("%04d", 1+r.Intn(200))
+	cfg.Reg, cfg.Pdu, cfg.Dereg = 1, 0, 1
+	sp := ProcSpec{Cfg: cfg, ChoiceSeed: r.Int63(), NUE: 1, Deregister: true, FaultAt: -1}
+	o.Input = fmt.Sprintf("procedures NG Setup + registration + deregistration for subscriber %s (MCC %s MNC %s)", cfg.IMSI, cfg.MCC, cfg.MNC)
+	o.Digest, o.Nontrivial = fw.HashS(o.Input), true
+	o.Tag("procedures", "mnc="+cfg.MNC)
+	pr, code, raw, timedOut := runProcChild(sp, 90*time.Second)
+	if timedOut {
+		o.Inconcl("procedure driver child exceeded its watchdog")
+		return
+	}
+	if pr == nil {
+		o.Fail("procedure-failed", "a procedure ended the process (exit %d) although the network behaved conformantly: %s", code, tail(raw, 600))
+		return
+	}
+	for _, v := range pr.Violations {
+		switch v.Key { // identity clauses of the trace specification; anything else is C01 / C02 business
+		case "suci", "suci-plmn", "dereg-identity", "ng-setup-plmn", "uli-plmn":
+			o.Fail("procedure-identity:"+v.Key, "subscriber %s: %s\n conversation:%s", cfg.IMSI, v.Msg, pr.Conversation)
+			return
+		}
+	}
+	if len(pr.Violations) > 0 {
+		o.Count("other_trace_violations_left_to_C01_C02", 1)
+	}
+	o.Count("procedure_runs", 1)
 	return
 }
 
